@@ -52,7 +52,7 @@ def c20_match(tier, seed):
 
 
 # ------------------------------------------------------------------------------------------- C06
-ATOMS = ["T", "F", "R", "M", "{'type':'T'}", "SIa", "SIb", "SIa#", "P"]     # P = parameterised named guard (true)
+ATOMS = ["T", "F", "R", "M", "{'type':'T'}", "SIa", "SIb", "SIa#", "P", "SIshort", "SIrel"]     # P = parameterised named guard (true)
 
 
 def _atom(a):
@@ -72,6 +72,10 @@ def _atom(a):
         return {"type": "stateIn", "params": {"value": "#m.a"}}
     if a == "SIb":
         return {"type": "stateIn", "params": {"state": "#m.b.c"}}
+    if a == "SIshort":      # a bare key: true iff a state whose id is `c` or ends with `.c` is active (not `m.b.xc`)
+        return {"type": "stateIn", "params": {"state": "c"}}
+    if a == "SIrel":
+        return {"type": "stateIn", "params": {"value": "b.c"}}
     return {"type": "gT", "params": {"limit": 3}}
 
 
@@ -105,7 +109,7 @@ def gen_formulas(depth, rng, cap):
     return allf
 
 
-Q_MACHINE = {"id": "m", "initial": "a", "states": {"a": {}, "b": {"initial": "c", "states": {"c": {}, "d": {}}}}}
+Q_MACHINE = {"id": "m", "initial": "a", "states": {"a": {}, "b": {"initial": "c", "states": {"c": {}, "d": {}, "xc": {}}}, "xb": {"initial": "c", "states": {"c": {}}}}}
 Q_GV = {"gT": "t", "gF": "f", "gR": "r"}
 
 
@@ -117,7 +121,7 @@ def c06_guard_eval(tier, seed):
     from . import impl
     rng = random.Random(seed)
     fs = gen_formulas(2 if tier == "quick" else 3, rng, 1500 if tier == "quick" else 12000)
-    cfgs = [[[], ["a"]], [[], ["b"], ["b", "c"]], [[], ["b"], ["b", "d"]]]
+    cfgs = [[[], ["a"]], [[], ["b"], ["b", "c"]], [[], ["b"], ["b", "d"]], [[], ["b"], ["b", "xc"]], [[], ["xb"], ["xb", "c"]]]
     log = []
     machine = create_machine(json.loads(json.dumps(Q_MACHINE)), logic=impl.mklogic(log, Q_GV))
     it = SyncInterpreter(machine).start()
